@@ -333,11 +333,12 @@ impl<'a> Cur<'a> {
             Err(format!("unknown validator `{}`", t))
         }
     }
-    /// validator name inside a contract message: any token [a-z0-9]+ (names outside VALS are
-    /// allowed so that "validator not on chain" can be exercised)
+    /// validator name inside a contract message: `val` + one character of VAL_ALPHABET (names
+    /// outside VALS are allowed so that "validator not on chain" can be exercised; the model side
+    /// reads the name as the index of that character)
     fn msg_val(&mut self) -> Result<String, String> {
         let t = self.next()?;
-        if !t.is_empty() && t.bytes().all(|b| b.is_ascii_lowercase() || b.is_ascii_digit()) {
+        if t.len() == 4 && t.starts_with("val") && VAL_ALPHABET.contains(&t[3..]) {
             Ok(t.to_string())
         } else {
             Err(format!("bad validator name `{}`", t))
